@@ -32,6 +32,7 @@ use mon::{Ctx, Monitor, Tier};
 fn monitors() -> Vec<Box<dyn Monitor>> {
     vec![
         Box::new(mon_hist::Hist),
+        Box::new(mon_hist::D13),
         Box::new(mon_twin::Reset),
         Box::new(mon_twin::Chan),
         Box::new(mon_twin::Malformed),
